@@ -303,7 +303,7 @@ def explore(subseed, cfg):
            'violations': [], 'samples': [], 'distinct': set(), 'harness': [], 'sim_clock_s': 0.0}
     pr = out['probes']
     isa, info = gen.gen_isa(rnd)
-    fmt = rnd.choice(['json', 'json', 'yaml'])
+    fmt = info['fmt']
     tg = progtree.TreeGen(rnd, info, n_files=rnd.choice([1, 2, 3, 3, 4]))
     main = tg.generate()
     case = {'isa_text': gen.isa_text(isa, fmt), 'isa_name': 'isa.' + fmt, 'tree': main, 'table': list(tg.all_globals), 'ctable': list(tg.cross_consts),
